@@ -182,27 +182,30 @@ def gen_method(rng, name, pkg, force_verb=None):
         else:
             params.append(ctxp)
     rng.shuffle(alias)
-    # the doc comment
-    vcase = rng.choice([verb.capitalize(), verb.capitalize(), verb, verb.lower(), verb[0].lower() + verb[1:].upper()])
-    sp = rng.choice([" ", " ", "  "])
+    # the doc comment; about a third in the canonical form of coq/Proofs/RestParse.v (canonical_doc), for which the
+    # link between comment and structured directive is a theorem, the rest in other spellings the regexes accept
+    canon = rng.random() < 0.3
+    vcase = rng.choice([verb.capitalize(), verb.capitalize(), verb, verb.lower()] +
+                       ([] if canon else [verb[0].lower() + verb[1:].upper()]))
+    sp = " " if canon else rng.choice([" ", " ", "  "])
     inner = ('"%s"' % path) if quoted else path
-    pad = rng.choice(["", "", " "])
-    vline = "shoot:%s%s(%s%s%s)%s" % (sp, vcase, pad, inner, pad, rng.choice(["", "", ";", " ;"]))
+    pad = "" if canon else rng.choice(["", "", " "])
+    vline = "shoot:%s%s(%s%s%s)%s" % (sp, vcase, pad, inner, pad, "" if canon else rng.choice(["", "", ";", " ;"]))
     lines = []
-    if rng.random() < 0.25:
+    if not canon and rng.random() < 0.25:
         lines.append("%s talks to the service." % name)
     aline = None
     if alias:
-        sep = rng.choice([",", ", ", ""])
-        inner_fmt = rng.choice(["{%s:%s}", "{%s:%s}", "{%s: %s}", "{%s : %s}"])
-        aline = "shoot: alias=" + sep.join(inner_fmt % (p, a) for p, a in alias) + rng.choice(["", "", "; note", " "])
-        if rng.random() < 0.15:
+        sep = "," if canon else rng.choice([",", ", ", ""])
+        inner_fmt = "{%s:%s}" if canon else rng.choice(["{%s:%s}", "{%s:%s}", "{%s: %s}", "{%s : %s}"])
+        aline = "shoot: alias=" + sep.join(inner_fmt % (p, a) for p, a in alias) + ("" if canon else rng.choice(["", "", "; note", " "]))
+        if not canon and rng.random() < 0.15:
             aline = "shoot: see alias=" + sep.join(inner_fmt % (p, a) for p, a in alias)
-    if aline and rng.random() < 0.2:
+    if aline and not canon and rng.random() < 0.2:
         lines += [aline, vline]
     else:
         lines += [vline] + ([aline] if aline else [])
-    if rng.random() < 0.15:
+    if not canon and rng.random() < 0.15:
         lines.append("Deprecated: no.")
     slashes = [rng.choice(["//", "// "]) for _ in lines]
     return {"name": name, "verb": verb, "toks": toks, "alias": alias, "params": params,
